@@ -144,6 +144,10 @@ def check(world, tier):
     from .listener import buffer_monotone
     f_ = rep.clause("C02.f", "single-port: the listener's receive buffer never shrinks (a DATA block is never truncated on its way to the worker)")
     buffer_monotone(world, eng, f_, "a DATA block of an upload in flight is truncated, acknowledged and stored short (and taken for the final block)")
+    # the block length the worker uses is the one acknowledged (shared with C09.c / C09.d): otherwise the peer's DATA does not fit
+    from . import C09
+    import_clause(world, tier, e_, C09, "C09.c", ("blk",), "worker block size = acknowledged block size")
+    import_clause(world, tier, e_, C09, "C09.d", ("BlockSize", "blk"), "only honourable block sizes are acknowledged")
     return rep
 
 
